@@ -173,15 +173,22 @@ def offenders(pid):
     return out
 
 
+SOURCE_LEVEL = ("theories/Properties/SourceLevel.v", ["SRC_source_is_highwayhash", "SRC_source_streaming_invariance"])
+# theorems about the interpreted source text as a whole (new; append*; finalize = HighwayHash, Ok in every profile)
+EXTRA_THEOREMS = {"C01": [SOURCE_LEVEL], "C05": [SOURCE_LEVEL], "C08": [SOURCE_LEVEL]}
+
+
 def check(ctx, pid):
-    """Fact theorem for a property whose main proof is about the model (C15, C07, C09)."""
-    vfile, thms = FACT_THEOREMS[pid]
-    ok, res = build_fact_file(ctx, vfile, thms)
-    if not ok and not ctx.violations:
-        off = offenders(pid) if pid in ("C15",) else []
-        ctx.violation("regenerated source facts: theorem %s no longer checks (%s)\n%s" % (thms, res.get("failed_at"), "\n".join(off[:20]) or res.get("log", "")[-800:]),
-                      None, no_input=True, tag="facts", extra_lines=off[:40])
-    return ok
+    """Theorems over regenerated files (facts, translated source) for a property whose main proof is about the model."""
+    allok = True
+    for vfile, thms in ([FACT_THEOREMS[pid]] if pid in FACT_THEOREMS else []) + EXTRA_THEOREMS.get(pid, []):
+        ok, res = build_fact_file(ctx, vfile, thms)
+        if not ok and not ctx.violations:
+            off = offenders(pid) if pid in ("C15",) else []
+            ctx.violation("regenerated source facts: theorem %s no longer checks (%s)\n%s" % (thms, res.get("failed_at"), "\n".join(off[:20]) or res.get("log", "")[-800:]),
+                          None, no_input=True, tag="facts", extra_lines=off[:40])
+        allok = allok and ok
+    return allok
 
 
 def check_memsig(ctx):
